@@ -678,8 +678,23 @@ fn plan(fx: &Fixtures, description: &str, base: &RunOut, tier: Tier, scope: &BTr
             renum(Renumber::Transpose { krate: c.clone(), a, b });
         }
     }
-    // family 3: load order
-    for p in permutations(&deps) {
+    // family 3: load order. Thorough: every permutation. Quick: every permutation for up to three
+    // dependent crates; beyond that each crate first, each crate last (the others in name order)
+    // and the fully reversed priority - all load orders of up to three crates are also covered by
+    // the dependency-graph dimension.
+    let load_orders: Vec<Vec<String>> = if tier == Tier::Thorough || deps.len() <= 3 {
+        permutations(&deps)
+    } else {
+        let mut v: BTreeSet<Vec<String>> = BTreeSet::new();
+        for d in &deps {
+            let rest: Vec<String> = deps.iter().filter(|x| *x != d).cloned().collect();
+            v.insert(std::iter::once(d.clone()).chain(rest.iter().cloned()).collect());
+            v.insert(rest.iter().cloned().chain(std::iter::once(d.clone())).collect());
+        }
+        v.insert(deps.iter().rev().cloned().collect());
+        v.into_iter().collect()
+    };
+    for p in load_orders {
         if p != deps {
             cases.push(mk("load-order", Order::Asc, Order::Natural, Renumber::Identity, &p));
         }
@@ -1151,17 +1166,29 @@ fn main() {
         .filter(|d| only.as_ref().is_none_or(|o| o.split(',').any(|x| x == d)))
         .collect();
     let runs = AtomicU64::new(0);
-    let bases = par_map(&descriptions, |_, d| {
-        let probe = execute(&fx, &baseline_case(d, &[]));
+    let probes = par_map(&descriptions, |_, d| {
         runs.fetch_add(1, Ordering::Relaxed);
-        let RunResult::Ok(probe) = probe else { return (probe, None) };
-        let mut deps = probe.loaded[1..].to_vec();
-        deps.sort();
-        let b1 = execute(&fx, &baseline_case(d, &deps));
-        let b2 = execute(&fx, &baseline_case(d, &deps));
-        runs.fetch_add(2, Ordering::Relaxed);
-        (b1, Some(b2))
+        execute(&fx, &baseline_case(d, &[]))
     });
+    // both unperturbed runs of every description at once (the second is the determinism check)
+    let twice: Vec<(usize, bool)> = (0..descriptions.len()).flat_map(|i| [(i, false), (i, true)]).collect();
+    let mut second = par_map(&twice, |_, (i, _)| match &probes[*i] {
+        RunResult::Ok(probe) => {
+            let mut deps = probe.loaded[1..].to_vec();
+            deps.sort();
+            runs.fetch_add(1, Ordering::Relaxed);
+            Some(execute(&fx, &baseline_case(&descriptions[*i], &deps)))
+        }
+        _ => None,
+    })
+    .into_iter();
+    let bases: Vec<(RunResult, Option<RunResult>)> = probes
+        .iter()
+        .map(|probe| match (second.next().flatten(), second.next().flatten()) {
+            (Some(b1), b2) => (b1, b2),
+            _ => (probe.clone(), None),
+        })
+        .collect();
     let mut base: BTreeMap<String, RunOut> = BTreeMap::new();
     for (d, (b1, b2)) in descriptions.iter().zip(bases) {
         match (b1, b2) {
@@ -1224,7 +1251,7 @@ fn main() {
         let scope: BTreeSet<String> = b
             .loaded
             .iter()
-            .filter(|c| tier == Tier::Thorough || *c == d || designated.get(*c) == Some(d))
+            .filter(|c| tier == Tier::Thorough || (b.loaded.len() <= 2 && (*c == d || designated.get(*c) == Some(d))))
             .cloned()
             .collect();
         plans.insert(d.clone(), plan(&fx, d, b, tier, &scope));
@@ -1582,9 +1609,9 @@ fn main() {
         "families": {
             "fact-order": format!("item, summary and external-crate fact vectors of every processed crate sorted by the harness: descending id; for each relevant item {}: that item first / that item last (others ascending); the unperturbed run is ascending id", tier.pick("of the crates in the description's per-item scope", "of every loaded crate")),
             "edge-order": format!("edge vector handed to the formatter sorted by the harness: ascending, descending, and for each {}: its edges first / last", tier.pick("container (edge source) of the crates in the description's per-item scope", "item occurring in an edge")),
-            "per_item_scope": tier.pick("quick: root crate + the dependent crates for which this description is the designated one (fewest loaded crates among the descriptions loading it); every relevant item of every description is thus moved under at least one description, not under every description that loads it", "thorough: every loaded crate under every description"),
+            "per_item_scope": tier.pick("quick: per-item members (item first/last, a container's edges first/last, transpositions, declared swaps) only under the descriptions that load at most one dependent crate (bridge_echo, hello_world, simple_counter, tap_to_pay): their own items, and crux_core's under bridge_echo. The items of cat_facts, counter, notes, crux_http, crux_kv, crux_time and crux_platform get per-item members in the thorough tier only; in quick those descriptions run the global members (descending order, edge order ascending/descending, reversal, offset), the load orders and the unowned runs", "thorough: every loaded crate under every description"),
             "renumber": renumber_bound,
-            "load-order": format!("every permutation of the dependent crates as load priority{}", tier.pick("", ", each with ascending and descending fact order")),
+            "load-order": tier.pick("every permutation of the dependent crates as load priority for descriptions with up to 3 dependent crates; for cat_facts (5): each crate first, each crate last (others in name order) and the reversed priority (the distinct ones of these 11, executed count under per_description); all 120 are thorough-only", "every permutation of the dependent crates as load priority, each with ascending and descending fact order"),
             "declared-swap": "semantic counterpart of the order families: for every enum that reaches the formatter (per-item scope as above) and every pair of neighbouring non-skipped variants, the two trade places in the declared variants list; the registry must be the unperturbed one with exactly those two indices exchanged",
             "dep-graph": "crate-reference graphs with transitive discovery, synthesized from the bundled descriptions by re-typing fields: every DAG on the root and up to 3 further crates x every load order (bound and counts under dependency_graphs)",
             "variant-shape": "one variant of an app enum rewritten in memory to each shape serde allows (unit, tuple/braced with 0, 1, 2 fields, with skipped fields, whole variant skipped), judged against what serde-reflection traces for that shape (bound, serde facts and counts under variant_shapes)",
@@ -1625,7 +1652,7 @@ fn main() {
         &[
             "the three perturbation families of the design (fact order, renumbering, load order) plus the edge-order and declared-swap families are finite and enumerated completely, but they are NOT all iteration orders, all id bijections or all load orders: a dependence that needs three or more items to move at once, or a specific non-listed id assignment, is outside the enumerated space",
             tier.pick(
-                "quick tier: the per-item members (item first/last, edges of a container first/last, transpositions, declared swaps) for items of a dependent crate are run under one designated description only, and transpositions only between neighbouring relevant items of one kind; the global members (descending order, reversal, offset, all load permutations) run for every description",
+                "quick tier: the per-item members (item first/last, edges of a container first/last, transpositions, declared swaps) run only under the four descriptions that load at most one dependent crate, transpositions only between neighbouring relevant items of one kind, and cat_facts gets about a tenth of its 120 load orders (each crate first / last, reversed); the global members (descending order, edge order, reversal, offset) and the synthesized dimensions run completely; `exhaustive` at this tier refers to exactly this reduced space",
                 "thorough tier: per-item members for every loaded crate under every description; all transpositions of two relevant ids of one crate; load permutations with ascending and descending fact order",
             ),
             "the dependency-graph dimension covers every crate-reference DAG on one root (tap_to_pay) and up to three further crates (crux_time, crux_kv, crux_platform in the stated assignments), one representative per topological labelling, under every load order; larger graphs, other roots, cycles between crates and references to crates without a bundled description are outside the space; its descriptions are bundled ones with re-typed fields, not rustdoc output",
